@@ -516,11 +516,11 @@ class Problem:
             listed.append(a)
         return sorted(set(listed))
 
-    def _clamp_points(self, conv, rnd, allvars):
+    def _clamp_points(self, conv, rnd, allvars, nodes=None):
         """parameter points at which a not-provably-inactive clamp is active: greedy coordinate search on the clamp's argument
-        (each parameter pushed to +-6 / +-12 / +-16, up to three parameters in turn) from an ordinary sample point"""
+        (each parameter pushed to +-6 / +-12 / +-16 or to 0 / +-1e-9, up to three parameters in turn) from an ordinary sample point"""
         out = []
-        for node in getattr(conv, "clamp_nodes", [])[:6]:
+        for node in (nodes if nodes is not None else getattr(conv, "clamp_nodes", [])[-16:]):
             arg, lo, hi = node.args
             arg = conv.canon(arg)
             for want_low in ((True,) if hi is None else (False,) if lo is None else (True, False)):
@@ -542,7 +542,7 @@ class Problem:
                         break
                     bestv, beste = cur, None
                     for nm in names:
-                        for mag in (6.0, -6.0, 12.0, -12.0, 16.0, -16.0):
+                        for mag in (6.0, -6.0, 12.0, -12.0, 16.0, -16.0, 30.0, -30.0, 1e-9, -1e-9):
                             e2 = dict(env)
                             e2[nm] = mag
                             v = val(e2)
@@ -600,8 +600,15 @@ class Problem:
             # parameter values: look further out (rare input regions, e.g. a branch cut or a regulariser) for a
             # parameter point where the two sides differ visibly
             if not hasattr(self, "_wide"):
-                self._wide = [(e_, {}, {}, ([], {})) for e_ in self._clamp_points(conv, rnd, allvars)]
-            for j in range(48):
+                self._wide = []
+                self._clamp_done = 0
+            nodes = getattr(conv, "clamp_nodes", [])
+            if len(nodes) > self._clamp_done and self._clamp_done < 48:
+                # clamps met since the last search (goals are converted one by one): their activating points go first
+                new = nodes[self._clamp_done:][:16]
+                self._clamp_done = len(nodes)
+                self._wide[0:0] = [(e_, {}, {}, ([], {})) for e_ in self._clamp_points(conv, rnd, allvars, new)]
+            for j in range(48 + min(len(self._wide), 32)):
                 if j >= len(self._wide):
                     if j % 2 == 0:
                         # all parameters further out
